@@ -14,7 +14,8 @@ PROP = "C07"
 RULE = ("geometries in general position (harness-side guard: no distance within 2% of a bonding cut-off, every 4-set the "
         "perception may test has all four apex-to-plane distances on one side of the 1.0 A threshold with 0.05 A margin): idealised "
         "tetrahedral / square-planar / trigonal-bipyramidal / octahedral / planar-bond templates (distinct and partly identical "
-        "ligands), the repository's XYZ files, RDKit-embedded organics; x ALL atom permutations (<=7 atoms; transpositions, shifts, "
+        "ligands), the same templates among 16-18 far-away spectator atoms with the identifiers scattered by every affine index map "
+        "i -> a+b*i mod 23 (quick: 8 multipliers), the repository's XYZ files, RDKit-embedded organics; x ALL atom permutations (<=7 atoms; transpositions, shifts, "
         "reversal above) x rigid-motion grid (24 cube rotations o seed-derived generic rotation + translation) x {proper, three "
         "reflections} x noise {0, 0.02, 0.05 A}; reaction triples with reactant / product / TS moved independently.  Differential "
         "oracle: graph(pi.R.x) renamed by pi^-1 has the same bonds and spatially identical descriptors (mirror descriptors under a "
@@ -22,7 +23,7 @@ RULE = ("geometries in general position (harness-side guard: no distance within 
 ASSUMPTIONS = ["a finite grid of a continuum; VERIF_SEED selects the generic rotation / translation / noise vectors",
                "geometries failing the general-position guard are skipped and counted",
                "thresholds themselves (1.2 x radii, 1.0 A planarity) are out of scope by the property's text"]
-BUDGET = {"quick": 240, "thorough": 1500}
+BUDGET = {"quick": 600, "thorough": 1500}
 
 
 @lru_cache(None)
@@ -30,6 +31,13 @@ def sources(tier):
     S = {}
     for k, (els, xyz, kind) in G.templates().items():
         S["T:" + k] = (els, xyz)
+    # the same templates among spectator atoms (isolated He atoms far away): 23 atoms in all, so that the identifiers of a centre
+    # and its ligands can be scattered (affine index maps below) - neighbour sets then iterate in non-ascending identifier order
+    for k in ("tet-CFClBrI", "sp-PtFClBrI", "tbp-PHFClBrI", "tbp-PF2Cl3", "oct-WHFClBrIO", "pb-CFCl=CBrI", "pb-Z-CHF=CHCl"):
+        els, xyz, kind = G.templates()[k]
+        ns = NSPECT - len(els)
+        sp = np.array([[40.0 + 9.0 * i, 35.0 + 2.5 * (i % 3), -30.0 - 1.5 * (i % 5)] for i in range(ns)])
+        S["S:" + k] = (list(els) + ["He"] * ns, np.vstack([np.array(xyz, dtype=float), sp]))
     for k, v in G.repo_xyz().items():
         S["F:" + k] = v
     for k, v in G.embedded((1,) if tier == "quick" else (1, 2, 3)).items():
@@ -37,8 +45,14 @@ def sources(tier):
     return S
 
 
-def perm_family(n, tier):
+NSPECT = 23   # prime: every multiplier 1..22 gives a permutation i -> (a + b*i) mod 23
+
+
+def perm_family(n, tier, name=""):
     ids = list(range(n))
+    if name.startswith("S:"):
+        bs = (1, 2, 3, 5, 7, 11, 13, 22) if tier == "quick" else range(1, n)
+        return [tuple((a + b * i) % n for i in ids) for b in bs for a in range(n)]
     if n <= (7 if tier == "thorough" else 7):
         return list(itertools.permutations(ids))
     fam = [tuple(ids[k:] + ids[:k]) for k in range(n)] + [tuple(reversed(ids))]
@@ -56,7 +70,7 @@ def items(tier, seed):
     out = []
     for name, (els, xyz) in sources(tier).items():
         n = len(els)
-        P = perm_family(n, tier)
+        P = perm_family(n, tier, name)
         step = 720 if n >= 6 else 2000
         for sig in ((0.0,) if (tier == "quick" and n > 7) else (0.0, 0.02, 0.05)):
             if sig > 0 and not name.startswith("T:"):
@@ -155,7 +169,7 @@ def run_item(item):
         oc["skipped-not-general-position"] = 1
         out["extra"] = {"skipped_geometries": 1}
         return out
-    fam = item["src"].split(":")[0] + (":" + item["src"].split(":")[1].split("-")[0] if item["src"].startswith("T:") else "")
+    fam = item["src"].split(":")[0] + (":" + item["src"].split(":")[1].split("-")[0] if item["src"].startswith(("T:", "S:")) else "")
 
     def V(clause, what, detail=None, inp=""):
         out["viol"].append({"sig": f"C07/{fam}/{clause}", "input": f"{item['src']}|s={item['sigma']}|{inp}",
@@ -172,7 +186,7 @@ def run_item(item):
         V("invalid-descriptor:" + str(bad[0][0]), f"perceived descriptor does not name the centre and its bonded neighbours: {bad[:2]}",
           {"bad": bad[:4]})
     oc["descriptors-in-base"] = len(m0.astereo) + len(m0.bstereo)
-    P = perm_family(n, tier)[item["lo"]:item["hi"]]
+    P = perm_family(n, tier, item["src"])[item["lo"]:item["hi"]]
     for k, pi in enumerate(P):
         ident = list(pi) == list(range(n))
         # quick: full motion grid on the identity order, two motions on every other order; thorough: full grid on every
